@@ -11,7 +11,7 @@ def rp(checks, shards, **kw):
 
 CHECKS = {}
 NOT_APPLICABLE = {}
-HOOK_COMMITS = []
+HOOK_COMMITS = ["bcb42cf", "8c7469d", "3cd76cc", "65b8d93", "bbffec9", "8af5ee8"]
 
 CHECKS["C20"] = {
     "level": "exploration",
